@@ -162,6 +162,7 @@ def run_case(case):
 
     h = 1e-4
     checked = 0
+    fd_skipped = []
     for ti, t in enumerate([t for t in tensors if t.learnable] if not hidden_zero else []):
         d = rng.normal(size=t.shape)
         if np.iscomplexobj(vals[t]):
@@ -176,6 +177,18 @@ def run_case(case):
         fd2 = (at(h / 2) - at(-h / 2)) / h
         if not (np.isfinite(fd1) and np.isfinite(fd2)):
             continue
+        if kind == "log":
+            # finite differences of log|r| are only meaningful while the step changes r by a small relative
+            # amount (a zero weight such as square(0) gating a large input makes tiny outputs jump by orders of
+            # magnitude at any practical step); otherwise this tensor is skipped and counted
+            v2 = dict(vals)
+            v2[t] = vals[t] + h * d
+            with np.errstate(all="ignore"):
+                rh = ref.evaluate(sc, v2, X)
+                rel = np.max(np.abs(rh - r) / np.abs(r))
+            if not rel < 0.05:
+                fd_skipped.append(ti)
+                continue
         tolv = 8 * abs(fd1 - fd2) + 1e-6 * abs(fd2) + 1e-9 * S / h + 1e-300
         for tag, g in grads.items():
             dd = float(np.sum(np.real(g[t] * np.conj(d))))
@@ -228,5 +241,7 @@ def run_case(case):
         classes.append("reference-has-zeros")
     if hidden_zero:
         classes.append("hidden-zero-in-log-space(values-not-compared)")
+    if fd_skipped:
+        classes.append("log-functional:step-outside-linear-regime(tensor-skipped)")
     nt = (checked > 0 or hidden_zero) and (folded or rew or sem != "sum-product")
     return {"nontrivial": nt, "classes": sorted(set(classes))}
